@@ -13,6 +13,8 @@ Regenerated from the working tree on every run:
   mapNames     the `{}` part of every file permissions_{}.json in api_permission_mappings
   mapEmpty     those whose JSON is {}
   defaultApi   default_conf["DEFAULT_API"] (AST of androconf.py; must be an int literal)
+  defaultReads the object every read of DEFAULT_API in load_api_specific_resource_module goes through
+               (must all be the active configuration `CONF`; theorem default_read_from_active_conf)
 """
 import ast
 import json
@@ -51,6 +53,45 @@ def _default_api(src: str) -> int:
     raise ValueError("default_conf['DEFAULT_API'] not found")
 
 
+def _default_reads(src: str):
+    """Which object every read of DEFAULT_API inside load_api_specific_resource_module goes through.
+    The model reads the default level of the ACTIVE configuration (`CONF[...]`, CONF = Configuration());
+    the module-level template `default_conf` is only the initial backing dict of that singleton.
+    Returns the list of base-object names of every `<obj>["DEFAULT_API"]` in the function (reads through
+    `.get("DEFAULT_API")` are recorded as "<obj>.get"). Raises when there is no read at all, when a base is
+    not a plain name, when `default_conf` is referenced in the function in any other way, or when CONF is
+    not bound at module level by `CONF = Configuration()`."""
+    tree = ast.parse(src)
+    fn = next((n for n in tree.body if isinstance(n, ast.FunctionDef) and n.name == "load_api_specific_resource_module"), None)
+    if fn is None:
+        raise ValueError("load_api_specific_resource_module not found")
+    conf_ok = any(isinstance(n, ast.Assign) and any(isinstance(t, ast.Name) and t.id == "CONF" for t in n.targets)
+                  and isinstance(n.value, ast.Call) and isinstance(n.value.func, ast.Name) and n.value.func.id == "Configuration"
+                  and not n.value.args and not n.value.keywords for n in tree.body)
+    if not conf_ok:
+        raise ValueError("module level `CONF = Configuration()` not found")
+    reads, subscripted = [], set()
+    for n in ast.walk(fn):
+        if isinstance(n, ast.Subscript) and isinstance(n.slice, ast.Constant) and n.slice.value == "DEFAULT_API":
+            if not isinstance(n.value, ast.Name):
+                raise ValueError("DEFAULT_API read through a non-name object: " + ast.unparse(n.value))
+            if not isinstance(n.ctx, ast.Load):
+                raise ValueError("load_api_specific_resource_module writes DEFAULT_API")
+            reads.append((n.lineno, n.col_offset, n.value.id)); subscripted.add(id(n.value))
+        if (isinstance(n, ast.Call) and isinstance(n.func, ast.Attribute) and n.func.attr in ("get", "__getitem__")
+                and n.args and isinstance(n.args[0], ast.Constant) and n.args[0].value == "DEFAULT_API"):
+            base = n.func.value
+            reads.append((n.lineno, n.col_offset, (base.id if isinstance(base, ast.Name) else ast.unparse(base)) + "." + n.func.attr))
+            if isinstance(base, ast.Name):
+                subscripted.add(id(base))
+    for n in ast.walk(fn):
+        if isinstance(n, ast.Name) and n.id in ("default_conf", "Configuration") and id(n) not in subscripted:
+            raise ValueError(f"load_api_specific_resource_module uses {n.id} in an unrecognised way (line {n.lineno})")
+    if not reads:
+        raise ValueError("no read of DEFAULT_API in load_api_specific_resource_module")
+    return [r[2] for r in sorted(reads)]
+
+
 def facts(repo: str) -> dict:
     root = os.path.join(repo, REL)
     src = open(os.path.join(root, "__init__.py")).read()
@@ -76,8 +117,9 @@ def facts(repo: str) -> dict:
             with open(os.path.join(mdir, x)) as fp:
                 if json.load(fp) == {}:
                     mempty.append(m.group(1))
-    default = _default_api(open(os.path.join(repo, "androguard", "core", "androconf.py")).read())
-    return {"regex": rx, "permLevels": levels, "permFiles": files, "permEmpty": perm_empty,
+    conf_src = open(os.path.join(repo, "androguard", "core", "androconf.py")).read()
+    default = _default_api(conf_src)
+    return {"defaultReads": _default_reads(conf_src), "regex": rx, "permLevels": levels, "permFiles": files, "permEmpty": perm_empty,
             "mapNames": mnames, "mapEmpty": mempty, "defaultApi": default}
 
 
@@ -114,6 +156,9 @@ def mapEmpty : List String := {_strs(f['mapEmpty'])}
 
 /-- default_conf["DEFAULT_API"] -/
 def defaultApi : Int := {dtxt}
+
+/-- the object each read of DEFAULT_API in load_api_specific_resource_module goes through, in source order -/
+def defaultReads : List String := {_strs(f['defaultReads'])}
 
 end AgVerif.Gen.ApiLevels
 """
